@@ -1066,6 +1066,9 @@ fn c11_check_program(
 
 pub fn c11(tier: Tier) -> i32 {
     let rep = Report::new("C11", tier, "model_checking");
+    // the combinator family (arity 0..2, nesting depth <= 3): invariant text is the one and only match
+    let trees = crate::props_total::combinator_laws(&rep, tier, "C11");
+    rep.add("combinator_trees_judged", trees);
     let opts = SpaceOpts::standard(tier);
     for_each_glob(&rep, &opts, &|e, g, c| {
         let t0 = g.text();
